@@ -428,6 +428,7 @@ class KroneckerProductTriangularLinearOperator(KroneckerProductLinearOperator, _
         left_tensor: Optional[Float[Tensor, "... O N"]] = None,
     ) -> Union[Float[Tensor, "... N P"], Float[Tensor, "... N"], Float[Tensor, "... O P"], Float[Tensor, "... O"]]:
         # For triangular components, using triangular-triangular substition should generally be good
+        _matmul_broadcast_shape(self.shape, right_tensor.shape)
         return self._inv_matmul(right_tensor=right_tensor, left_tensor=left_tensor)
 
 
